@@ -13,7 +13,7 @@ ASSUMPTIONS = [
     'repeats made unique by a numeric suffix; the documented sanitisation is the independent implementation of C17',
 ]
 
-NAMES = ['x', 'y', None, 'A b', 'sum', 'x', '', '1st', 'x_sum', 'key']
+NAMES = ['x', 'y', None, 'A b', 'sum', 'x', 'a_b', 'X', '', '1st', 'x_sum', 'key']
 NN = len(NAMES)
 
 BIN = {'add': operator.add, 'sub': operator.sub, 'mul': operator.mul, 'truediv': operator.truediv, 'floordiv': operator.floordiv, 'mod': operator.mod, 'pow': operator.pow,
@@ -235,6 +235,7 @@ def _agg_body(win, k0, k1, c0, c1, twokeys, pattern):
     elif pattern == 2: kw = dict(min_over=[va, vb], max_over=[vb, va], stdev_over=va); aggs = {'min': [cn[0], cn[1]], 'max': [cn[1], cn[0]], 'stdev': [cn[0]]}
     elif pattern == 3: kw = dict(sum_over=va, apply={'total': (va, sum), (cn[0] or 'col'): (vb, len)}); aggs = {'sum': [cn[0]]}
     elif pattern == 5: kw = dict(sum_over=[va, va, va], count_over=[vb, vb, vb]); aggs = {'sum': [cn[0]] * 3, 'count': [cn[1]] * 3}
+    elif pattern == 7: kw = dict(sum_over=[va, va, va, va, va]); aggs = {'sum': [cn[0]] * 5}
     elif pattern == 6 and ((doc_sanitize(cn[0] or 'col') or 'col') in public_api() or keyword.iskeyword(doc_sanitize(cn[0] or 'col') or 'col')):
         return None      # reserved column names get an extra underscore; the collision this pattern builds would not occur
     elif pattern == 6: kw = dict(sum_over=[va, va], apply={(doc_sanitize(cn[0] or 'col') or 'col') + '_sum2': (vb, len), 'total': (va, sum)}); aggs = {'sum': [cn[0], cn[0]]}
@@ -277,7 +278,7 @@ def _agg_body(win, k0, k1, c0, c1, twokeys, pattern):
 
 def h_agg(k0: int, k1: int, c0: int, c1: int, twokeys: bool, pattern: int) -> bool:
     """
-    pre: 0 <= k0 < NN and 0 <= k1 < 6 and 0 <= c0 < NN and 0 <= c1 < 5 and 0 <= pattern <= 6
+    pre: 0 <= k0 < NN and 0 <= k1 < 6 and 0 <= c0 < NN and 0 <= c1 < 5 and 0 <= pattern <= 7
     pre: twokeys or k1 == 0
     pre: H.fix(pattern=pattern)
     post: _
@@ -307,7 +308,7 @@ def obligations(tier):
         obs.append(dict(name='struct[%s]' % ORIGINS[oi], fn='h_struct', config={'oi': oi, 'names': 5 if q else NN}, budget=150 if q else 900,
                         bounds='origin %s x 24 derivations (incl. empty join / sort / slice results) x every triple of the first %d menu names' % (ORIGINS[oi], 5 if q else NN), smoke=[[oi, 0, 0, 1, 2], [oi, 14, 0, 1, 3]]))
     for win in (False, True):
-        for pattern in range(7):
+        for pattern in range(8):
             obs.append(dict(name='agg-names[%s,pattern=%d]' % ('window' if win else 'aggregate', pattern), fn='h_agg', config={'win': win, 'pattern': pattern}, budget=120 if q else 300,
                             bounds='1-2 key columns and 2 value columns named from the menu (repeats, unnamed, unsanitary, reserved, key named like an output); 7 argument patterns incl. the same column twice / three times, an apply name that collides with a generated name',
                             smoke=[[0, 1, 3, 4, False, pattern], [2, 0, 2, 0, True, pattern]]))
